@@ -8,7 +8,7 @@ from .. import mailbox_corr as mc
 
 ID = "C14"
 MODEL = "CLIENT"
-PROP_MODULES = ["WV.Props.C14"]
+PROP_MODULES = ["WV.Props.ClientSkel", "WV.Props.C14"]
 NATIVE_DECIDE_MODULES = ["WV.Proofs.ClientCert"]   # the one finite certificate, disclosed (DESIGN §4)
 TRUSTED = ["native_decide on the finite certificate of the closed system (WV.Proofs.ClientCert.cert: ~2.8e4 states x 34 events): adds Lean.ofReduceBool/Lean.trustCompiler, i.e. the Lean compiler, to these theorems",
            "the environment model WV.ClientEnv.enabled (what a conformant server/peer/application may do); validated by trace inclusion of real-server runs",
